@@ -59,7 +59,7 @@ def run(ctx):
     ctx.exhaustive = True
     # correspondence: Lean model on all code points
     try:
-        replies = ctx.driver([f"suite {c}" for c in range(65536)])
+        replies = ctx.driver("suite", [f"suite {c}" for c in range(65536)])
         p = ctx.point("suite.resolve")
         p["cases"] = 65536
         for c in range(65536):
